@@ -144,7 +144,13 @@ fn run_trace(line: &str, dir: &str) -> String {
             _ => {
                 if let Some(s) = st.as_mut() {
                     shim::logline(format!("c call {}", it));
+                    let creates = shim::count_creates();
                     let (res, stop) = exec_op(s, dir, &t);
+                    // the call may have handed requests to an idle worker (a flush, or a chunk
+                    // rotation): let it run to its next gate before the result is recorded
+                    if t[0] == "F" || shim::count_creates() != creates {
+                        shim::settle(idle);
+                    }
                     shim::logline(format!("c ret {}", res));
                     if stop {
                         std::mem::forget(st.take());
